@@ -538,11 +538,23 @@ impl<Front: SocketHandler> ConnectionH1<Front> {
         // on the wire — RFC 6797 §6.1 expects a single header). On H2
         // the same multi-prepare-cycle pattern surfaces as a
         // `H2BlockConverter::finalize` "out buffer not empty" leak.
-        if matches!(self.position, Position::Server) && !parts.context.headers_response.is_empty() {
-            let edits = std::mem::take(&mut parts.context.headers_response);
-            super::shared::apply_response_header_edits(kawa, &edits);
+        // Toward the client nothing of a response is written before its head is
+        // complete (same gate as the H2 write path): a WRITABLE left armed by an
+        // interim 100 / 103 must not put half a status line / header block on
+        // the wire — if the backend then dies the 502 default answer would follow
+        // those bytes and reach the client as the body of a "200".
+        let head_incomplete = matches!(self.position, Position::Server)
+            && !kawa.is_main_phase()
+            && !kawa.is_error();
+        if !head_incomplete {
+            if matches!(self.position, Position::Server)
+                && !parts.context.headers_response.is_empty()
+            {
+                let edits = std::mem::take(&mut parts.context.headers_response);
+                super::shared::apply_response_header_edits(kawa, &edits);
+            }
+            kawa.prepare(&mut kawa::h1::BlockConverter);
         }
-        kawa.prepare(&mut kawa::h1::BlockConverter);
         let mut io_slices = Vec::new();
         for block in kawa.out.iter() {
             match block {
